@@ -209,9 +209,9 @@ def run_case(case, ctx):
 
 
 def shard_main(ctx):
-    if not ctx.explore("segy", segy_cases(), run_case, ctx.n(60, 1200)):
+    if not ctx.explore("segy", segy_cases(), run_case, ctx.n(150, 1500)):
         return
-    ctx.explore("numpy", numpy_cases(), run_case, ctx.n(50, 800))
+    ctx.explore("numpy", numpy_cases(), run_case, ctx.n(120, 1000))
 
 
 def replay(case, ctx):
